@@ -244,7 +244,44 @@ fn crafted2(rng: &mut Rng) -> (Vec<u8>, &'static str, u8) {
         m.extend(values);
         m
     };
-    match rng.below(3) {
+    match rng.below(4) {
+        3 => {
+            // a length-prefixed value (blob, text, principal in a reference) whose length lies enormously, in a position
+            // where it is skipped or read untyped: surplus argument, surplus record field, below a mismatched option
+            let len = *rng.pick(&[1u64 << 31, 1 << 40, 1 << 62, (1 << 63) - 1, 1 << 63, u64::MAX - 1, u64::MAX]);
+            let blob = vec![0x6d, 0x7b]; // vec nat8
+            let mut liar = leb_u64(len);
+            liar.extend({
+                let n = rng.usize(12);
+                rng.bytes(n)
+            });
+            match rng.below(4) {
+                0 => {
+                    // (nat8, blob): decoded at one argument, the blob is surplus
+                    let mut v = vec![7u8];
+                    v.extend(liar);
+                    (msg(&[blob], &[-5, 0], &v), "length-lie:surplus-argument", 2)
+                }
+                1 => {
+                    // record { 0 : nat8; 1 : blob } decoded at record { 0 : nat8 }
+                    let rec = vec![0x6c, 0x02, 0x00, 0x7b, 0x01, 0x00];
+                    let mut v = vec![7u8];
+                    v.extend(liar);
+                    (msg(&[blob, rec], &[1], &v), "length-lie:surplus-field", 2)
+                }
+                2 => {
+                    // opt blob, present: read at whatever the target expects
+                    let opt = vec![0x6e, 0x00];
+                    let mut v = vec![1u8];
+                    v.extend(liar);
+                    (msg(&[blob, opt], &[1], &v), "length-lie:below-option", 2)
+                }
+                _ => {
+                    // text
+                    (msg(&[], &[-15, -15], &[vec![1u8, 0x61], liar].concat()), "length-lie:text", 2)
+                }
+            }
+        }
         0 => {
             // vec of a fixed-width primitive whose byte length sits at a wrap-around boundary of 2^64 (or 2^63)
             let (code, size): (i64, u64) = *rng.pick(&[(-5, 1), (-9, 1), (-2, 1), (-6, 2), (-10, 2), (-7, 4), (-11, 4), (-13, 4), (-8, 8), (-12, 8), (-14, 8)]);
@@ -377,7 +414,11 @@ pub fn run(ctx: &mut Ctx) {
         let (bytes, fam, aim) = crafted2(rng);
         // aim 0: the primitive-vector path needs the same primitive on both sides (no expected type, or the exact native
         // vector); aim 1: header parsing, any target
-        let target = if aim == 0 && rng.chance(2, 3) {
+        let target = if aim == 2 && rng.chance(2, 3) {
+            // a target that reads a nat8 (or a one-field record) and skips the rest
+            let name = *rng.pick(&["u8", "(u8,)", "Option<u8>", "Reserved", "Vec<u8>", "String"]);
+            (0..n_types).find(|i| reg::with(*i, |t| t.name()) == name).map(Target::Native).unwrap_or(Target::NoType)
+        } else if aim == 0 && rng.chance(2, 3) {
             if rng.bool() {
                 Target::NoType
             } else {
@@ -388,7 +429,7 @@ pub fn run(ctx: &mut Ctx) {
             pick_target(rng, &tcfg)
         };
         let mut conf = gen_conf(rng);
-        if aim == 0 && rng.bool() {
+        if aim != 1 && rng.bool() {
             conf.dq = None; // the length checks must hold without the quota as a backstop
         }
         judge(ctx, fam, &target, &bytes, &conf);
